@@ -16,7 +16,7 @@ Part A' (topological order; direct oracle of the Lean theorem `compiled_tableau_
 compiler).  The real `StabilizerCompiler.compile` is run on a duck-typed view of the circuit whose `sequence()` follows a
 *random linear extension* of the DAG (random Kahn order) instead of the order `networkx.topological_sort` returns; the
 outcomes that occurred in the default order are forced operation by operation; the recorded outcomes and the final
-stabilizer state (canonical signed form) must be the same.  The model must accept the order as a linear extension
+stabilizer state (canonical signed form) must be the same (for small circuits also through the DensityMatrixCompiler).  The model must accept the order as a linear extension
 (`assign_noise` of the model rejects anything else).  Testing only (the theorem is about the model `stabRun`).
 
 Part A'' (the bridge of the refinement theorems).  `compile_loop_refines_stabilizer_semantics` speaks about
@@ -379,7 +379,7 @@ def random_linear_extension(rng, dag):
     return out
 
 
-def check_orders(ctx, res, drv, circ, tag, n_orders=2):
+def check_orders(ctx, res, drv, circ, tag, n_orders=2, with_dm=False):
     snap = wu.snapshot(circ)
     if len(snap["nodes"]) < 2:
         return
@@ -423,6 +423,20 @@ def check_orders(ctx, res, drv, circ, tag, n_orders=2):
                 res.violation("order:state-changed", "the compiled state does not depend on the topological order", input=inp,
                               impl=f"different final state for outcomes {sorted(got.items())}")
                 break
+            if with_dm:
+                # the density-matrix backend (not covered by the Lean theorem) along the same two orders
+                try:
+                    gd, sd = run_sem(circ, got, dflt, "dm")
+                    gd2, sd2 = run_sem(view, got, dflt, "dm")
+                except Exception as e:  # noqa: BLE001
+                    res.violation("order:dm:raised", "compile along any topological order returns the state", input=inp,
+                                  impl=f"{type(e).__name__}: {e}"[:300])
+                    break
+                res.branch(["order:dm"])
+                if gd2 != gd or not np.allclose(np.array(sd), np.array(sd2), atol=1e-7):
+                    res.violation("order:dm:state-changed", "the compiled state does not depend on the topological order (density-matrix backend)",
+                                  input=inp, impl=f"outcomes {sorted(gd.items())} vs {sorted(gd2.items())}")
+                    break
 
 
 # ------------------------------------------------------------------------------------------------------------ part A''
@@ -846,7 +860,7 @@ def run(ctx):
             res.count("sizes", f"ops<={5 * ((len(wu.snapshot(circ)['nodes']) + 4) // 5)}")
             check_rewrites(ctx, res, drv, circ, tag, with_dm=circ.n_quantum <= 4 and ctx.rng.random() < 0.4)
             if ctx.rng.random() < 0.5:
-                check_orders(ctx, res, drv, circ, tag)
+                check_orders(ctx, res, drv, circ, tag, with_dm=circ.n_quantum <= 4 and ctx.rng.random() < 0.5)
             if len(cop_cases) < n_cop and len(wu.snapshot(circ)["nodes"]) >= 1:
                 cop_cases.append((circ, None, tag))
                 cop_cases.append((circ, random_linear_extension(ctx.rng, circ.dag), tag + "+order"))
